@@ -1098,6 +1098,14 @@ class BasicDimStatement(AbstractBasicStatement):
             )
         ]
 
+        # A name that is listed twice is declared once
+        non_str_vars = list(
+            {
+                var.name() if isinstance(var, BasicVar) else var.var.name(): var
+                for var in non_str_vars
+            }.values()
+        )
+
         str_var_names_to_exp = {
             str_var.name()
             if isinstance(str_var, BasicVar)
